@@ -1658,6 +1658,22 @@ def accessor_rules(chk, pid):
                         a0 = t.args[0] if t.args else None
                         okd = a0 is not None and a0[0] == "fld" and a0[2] == "now" and a0[1][0] == "fld" and a0[1][2] in ("root", "parent")
                         okg = any(mentions_field(a, R.NEEDUPDATE, SELF) for a, p in t.guard)
+                        if okg:
+                            # decided on the truth table of the two atoms: refresh exactly when (needupdate or own clock != parent's clock)
+                            nu = canon(fld(SELF, R.NEEDUPDATE))
+                            same_clock = canon(("cmp", "==", fld(SELF, "now"), fld(fld(SELF, "parent"), "now")))
+                            trig = [l for l in lits(plain(t.guard)) if mentions_field(l[0], R.NEEDUPDATE, SELF) or mentions_field(l[0], "now", SELF)]
+                            for b_nu in (True, False):
+                                for b_same in (True, False):
+                                    g_ = sym.sat(((nu, b_nu), (same_clock, b_same)))
+                                    val = True
+                                    for a_, p_ in trig:
+                                        if sym.lit_holds(g_, a_, p_):
+                                            continue
+                                        val = False if sym.lit_holds(g_, a_, not p_) else None
+                                        break
+                                    if val is None or val != (b_nu or not b_same):
+                                        okg = False
                         chk.ob("C08.R3", okd and okg, fi.module, host, "self-refresh-shape", "the self refresh is triggered by the needupdate flag or a lagging clock and runs at the tree's date",
                                where=t.where, found="%s | %s" % (short(a0) if a0 else "-", sym.fmt_guard(t.guard)))
                         dep = [l for l in plain(t.guard) if mentions_field(l[0], R.STALE, fld(SELF, "root")) or (l[0][0] == "fld" and l[0][2] == R.STALE)]
